@@ -105,11 +105,13 @@ func (s *scanner) ScanToken() (Object, error) {
 			s.SkipByte()
 			return Operator(">>"), nil
 		default:
-			err := s.err
-			if err == nil {
-				err = &postScriptError{eSyntaxerror, "unexpected '>'"}
+			// A read error is only relevant if it prevented the look-ahead.
+			// (The error may already be set while buffered data is left, in
+			// case the reader returned its last data together with io.EOF.)
+			if len(bb) < 2 && s.err != nil && s.err != io.EOF {
+				return nil, s.err
 			}
-			return nil, err
+			return nil, &postScriptError{eSyntaxerror, "unexpected '>'"}
 		}
 	case '/':
 		var name []byte
